@@ -42,6 +42,8 @@ def histories(tier):
     for s in START[:2]:
         for lab in mgraph.ops("all"):
             hs.append((s, (lab,)))
+        for lab in mgraph.ops("serial"):  # attributes the other alphabets never set (observation transformation)
+            hs.append((s, (lab,)))
     if tier == "thorough":
         for s in START[:2]:
             for a in mgraph.ops("structural"):
@@ -183,7 +185,8 @@ def content_key(m):
 
     parts = [m.parameters.to_dict(), m.random_variables.to_dict(), m.statements.to_dict(), m.execution_steps.to_dict(),
              {str(k): v for k, v in m.dependent_variables.items()}, [c.to_dict() for c in m.datainfo], mgraph.dataset_digest(m),
-             None if m.initial_individual_estimates is None else m.initial_individual_estimates.to_dict()]
+             None if m.initial_individual_estimates is None else m.initial_individual_estimates.to_dict(),
+             {str(k): str(v) for k, v in m.observation_transformation.items()}]
     return hashlib.sha1(json.dumps(parts, sort_keys=True, default=str).encode()).hexdigest()
 
 
